@@ -124,7 +124,11 @@ fn gen_fmt_word(r: &mut Rng) -> String {
 
 fn corrupt(s: &str, r: &mut Rng) -> String {
     let junk = ["x", "9", "-true", ",", ".", "k", "d", "@", "+", "-", "/", "=", "q", "%", "\\", " ", "\t", ")", "(", "'", "\""];
-    let j = r.pick(&junk);
+    // multi-character junk: unit words and number notations people write (one character is not enough to
+    // tell `10M` + `iB` from `10M`)
+    let words = ["iB", "B", "KiB", "MiB", "kB", "MB", "GB", ".5", ".0", ",5", "_000", "e3", "0x", "min", "sec", "hr", "days", "ms", "ib", "Ki", "bytes", "u+x", "=r", ",u", "rwx", "\\n", "%p", "%%", "\\0", "00", "000", "1e", "LL", "--", "++"];
+    let pick_word = r.chance(1, 3);
+    let j = if pick_word { r.pick(&words) } else { r.pick(&junk) };
     let cs: Vec<char> = s.chars().collect();
     match r.below(6) {
         0 => format!("{}{}", s, j),
